@@ -25,6 +25,7 @@ import (
 	"sync"
 	"time"
 
+	"github.com/AdguardTeam/AdGuardHome/internal/filtering"
 	"github.com/AdguardTeam/AdGuardHome/internal/verifx/lib"
 	"github.com/AdguardTeam/AdGuardHome/internal/verifx/srv"
 	vsync "github.com/AdguardTeam/AdGuardHome/verifx/vsync"
@@ -254,6 +255,22 @@ func scenarios(quick bool) (out []scenario) {
 			out = append(out, scenario{-1, []int{b, ad}})
 		}
 	}
+	// Three parties without a request: the filter refresh worker, an operation
+	// that writes the filter lists, and one that saves the configuration (lock
+	// order between the filter-list lock and the configuration lock).
+	opIdx := func(name string) int {
+		for i := range operations {
+			if operations[i].name == name {
+				return i
+			}
+		}
+		panic("no operation " + name)
+	}
+	for _, w := range []string{"filtering-add-url", "filtering-set-url", "filtering-config"} {
+		for _, sv := range []string{"rewrite-add", "filtering-set-rules"} {
+			out = append(out, scenario{-1, []int{opIdx("bg-filter-refresh"), opIdx(w), opIdx(sv)}})
+		}
+	}
 	if !quick {
 		for b := range operations {
 			if !isBG(b) {
@@ -434,7 +451,12 @@ func phaseSched(c *lib.Ctx) {
 			if c.Expired() {
 				return
 			}
-			st := vsync.Explore(mkBody(c, sc), vsync.Options{Bound: bound, MaxExecutions: maxExec, Deadline: c.Deadline, StuckTimeout: 30 * time.Second, Trace: true}, nil)
+			// Request x operation pairs also get a scheduling point after every lock
+			// release, so that a request can run between an operation's unlock and
+			// the unsynchronised statements that follow it (state published before
+			// it is complete).
+			st := vsync.Explore(mkBody(c, sc), vsync.Options{Bound: bound, MaxExecutions: maxExec, Deadline: c.Deadline, StuckTimeout: 30 * time.Second, Trace: true,
+				ReleasePoints: sc.req >= 0 && len(sc.ops) == 1}, nil)
 			c.Count("sched_executions", int64(st.Executions))
 			c.Count("evals", int64(st.Executions))
 			c.Count("sched_points", st.Points)
@@ -489,8 +511,63 @@ func deadlockSig(detail string) string {
 	return strings.Join(s, "+")
 }
 
+// phaseQueue: configuration changes that arrive while the engine initialiser is
+// busy are queued; after the queue has been drained the engines must reflect
+// the LAST configuration (deterministic histories, no scheduler).
+func phaseQueue(c *lib.Ctx) {
+	type qcase struct {
+		Engine  string   `json:"engine"`
+		History []string `json:"history"`
+	}
+	hist := [][]string{{"A"}, {"A", "B"}, {"A", "B", "C"}, {"A", "drain", "B", "C"}}
+	rules := map[string]string{"A": "||only-a.test^", "B": "||only-b.test^", "C": "||only-c.test^"}
+	for _, h := range hist {
+		a, err := build(c.TmpDir, false)
+		if err != nil {
+			c.EngineError("assembly: " + err.Error())
+			return
+		}
+		last := ""
+		for _, step := range h {
+			if step == "drain" {
+				for {
+					ran, err := a.filter.VerifRunPendingInit()
+					if err != nil || !ran {
+						break
+					}
+				}
+				continue
+			}
+			a.call("POST", "/control/filtering/set_rules", fmt.Sprintf(`{"rules":[%q]}`, rules[step]))
+			last = step
+		}
+		for {
+			ran, err := a.filter.VerifRunPendingInit()
+			if err != nil || !ran {
+				break
+			}
+		}
+		c.Count("evals", 1)
+		c.Count("queue_histories", 1)
+		c.Distinct("nontrivial", "queue|"+strings.Join(h, ","))
+		for step, r := range rules {
+			host := strings.TrimSuffix(strings.TrimPrefix(r, "||"), "^")
+			res, err := a.filter.CheckHost(host, dns.TypeA, &filtering.Settings{FilteringEnabled: true, ProtectionEnabled: true})
+			blocked := err == nil && res.IsFiltered
+			if blocked != (step == last) {
+				c.Violation("stale-engine-after-queued-updates", fmt.Sprintf("custom rules were set %v in a row while the engine initialiser was busy; after the queue was drained %s is blocked=%v although the configuration holds only the rule of %q", h, host, blocked, last),
+					qcase{Engine: "queue", History: h})
+			}
+		}
+		a.close()
+	}
+}
+
 func run(c *lib.Ctx) {
 	srv.Quiet()
+	if c.ShardI == 0 {
+		phaseQueue(c)
+	}
 	// Half of the shards explore schedules, the other half run the race pass.
 	half := c.ShardN / 2
 	if half == 0 {
@@ -533,12 +610,20 @@ func replay(c *lib.Ctx, raw json.RawMessage) string {
 	if si < 0 {
 		return "unknown scenario"
 	}
+	if cs.Engine == "queue" {
+		phaseQueue(c)
+		if c.NumViolationKeys() > 0 {
+			return "violation reproduced"
+		}
+		return ""
+	}
 	if cs.Engine == "E4-race" {
 		return fmt.Sprintf("race cells are replayed with: VERIF_C05_CELL=%d,%d,10,%d GORACE=halt_on_error=0 /verif/.bin/c05.race", si, cs.Order, map[bool]int{true: 1, false: 0}[cs.Quick])
 	}
 	mk := mkBody(c, scs[si])
-	r1, f1 := vsync.RunOne(mk, cs.Schedule, vsync.Options{Trace: true, StuckTimeout: 30 * time.Second})
-	r2, f2 := vsync.RunOne(mk, cs.Schedule, vsync.Options{Trace: true, StuckTimeout: 30 * time.Second})
+	rp := scs[si].req >= 0 && len(scs[si].ops) == 1
+	r1, f1 := vsync.RunOne(mk, cs.Schedule, vsync.Options{Trace: true, StuckTimeout: 30 * time.Second, ReleasePoints: rp})
+	r2, f2 := vsync.RunOne(mk, cs.Schedule, vsync.Options{Trace: true, StuckTimeout: 30 * time.Second, ReleasePoints: rp})
 	if len(r1.Points) != len(r2.Points) || r1.Deadlock != r2.Deadlock || f1 != f2 {
 		return "REPLAY DIVERGED between two runs of the same schedule (engine error)"
 	}
